@@ -988,10 +988,12 @@ func StressFile(r *rng.R, c *Config) *model.File {
 			}
 			return plain()
 		}
+		nodes := r.Range(60, 220) // size cap: the nest is deep, not bushy
 		var build func(d int, inLoop bool) []*model.Stmt
 		build = func(d int, inLoop bool) []*model.Stmt {
 			out := []*model.Stmt{cmd()}
-			if d == 0 {
+			nodes--
+			if d == 0 || nodes <= 0 {
 				if r.Bool() {
 					out = append(out, &model.Stmt{K: model.KBreak})
 				} else if inLoop {
@@ -1000,7 +1002,7 @@ func StressFile(r *rng.R, c *Config) *model.File {
 				return out
 			}
 			sibs := 1
-			if r.P(0.4) {
+			if r.P(0.25) && nodes > 40 {
 				sibs = 2
 			}
 			for s := 0; s < sibs; s++ {
